@@ -9,9 +9,9 @@ import (
 // minimal schema with the record under test named Rec.
 type Cell struct {
 	Elem, Shape, Ctx string
-	S               *Schema
-	Rec             string // record under test (for union contexts: the union)
-	Support         []string
+	S                *Schema
+	Rec              string // record under test (for union contexts: the union)
+	Support          []string
 }
 
 func (c Cell) Key() string { return c.Elem + "|" + c.Shape + "|" + c.Ctx }
